@@ -14,5 +14,5 @@ for cfg in props.values():
     mods.add(cfg["module"]); mods.update(cfg.get("agree", [])); mods.update(cfg.get("lemmas", []))
 subprocess.check_call(["lake", "build"] + sorted(mods), cwd="lean")
 PY
-(cd harness && cargo build --offline && cargo build --offline --features c15threads)
+(cd harness && cargo build --offline && cargo build --offline --features c15threads && cargo build --offline --profile dev0)
 echo "setup done"
